@@ -47,3 +47,26 @@ def vtt_cue(model=None, obligation=None, **_):
   we = Fraction((_i(model, 'e_mm') * 60 + _i(model, 'e_ss')) * 1000 + _i(model, 'e_ms'), 1000)
   bad = p.get_begin() != wb or p.get_end() != we or isinstance(p.get_begin(), float)
   return bad, f"{b} --> {e}: begin {p.get_begin()!r} (want {wb}), end {p.get_end()!r} (want {we})"
+
+
+def srt_frames(fps=25, model=None, obligation=None, **_):
+  import xml.etree.ElementTree as et
+  import ttconv.srt.reader as r
+  import ttconv.imsc.writer as w
+  from ttconv.imsc.config import IMSCWriterConfiguration, TimeExpressionSyntaxEnum
+  model = model or {}
+  f = {k: _i(model, k) for k in ("begin_h", "begin_m", "begin_s", "begin_ms", "end_h", "end_m", "end_s", "end_ms")}
+  line = f"{f['begin_h']:02d}:{f['begin_m']:02d}:{f['begin_s']:02d},{f['begin_ms']:03d} --> {f['end_h']:02d}:{f['end_m']:02d}:{f['end_s']:02d},{f['end_ms']:03d}"
+  doc = r.to_model(io.StringIO(f"1\n{line}\nHello\n\n"))
+  tree = w.from_model(doc, IMSCWriterConfiguration(time_format=TimeExpressionSyntaxEnum.frames, fps=Fraction(fps)))
+  p = next(e for e in tree.getroot().iter() if e.tag.endswith("}p"))
+  bad = False
+  txt = []
+  for side in ("begin", "end"):
+    ms = ((f[side + "_h"] * 60 + f[side + "_m"]) * 60 + f[side + "_s"]) * 1000 + f[side + "_ms"]
+    want = Fraction(ms * fps, 1000)
+    got = p.get(side)
+    txt.append(f"{side} {got!r} (intended frame {want})")
+    if want.denominator == 1 and got != f"{want.numerator}f":
+      bad = True
+  return bad, f"{line!r} at {fps} fps: " + ", ".join(txt)
